@@ -473,6 +473,42 @@ func c18WriteBack(c *Ctx, p *Prog) {
 	} else {
 		ob.HoldNT("success requires writeJSONServerState(js) ok")
 	}
+	// a start that is rejected leaves the state file as it was: nothing can fail after the write-back
+	// except the write itself (the file holds the only copy of the identity key)
+	obV := c.Obl("R3", "transports/obfs4:serverStateFromJSONServerState#validated-before-written", "the state is written back only after everything that can reject it has passed: no failure return is reachable after writeJSONServerState other than through its own error")
+	badV, nW := "", 0
+	for _, wc := range p.CallsIn(fn, p.fnID(wr)) {
+		nW++
+		for _, r := range returnsOf(fn) {
+			if !canReachWithout(wc, r, nil) {
+				continue
+			}
+			ev := r.Results[errResultIndex(fn)]
+			if isNilConst(unspill(ev)) {
+				continue
+			}
+			own := true
+			for _, lf := range errLeaves(ev) {
+				if isNilConst(lf) {
+					continue
+				}
+				if lc, _ := callOf(lf); lc == nil || ssa.Instruction(lc) != wc.(ssa.Instruction) {
+					own = false
+				}
+			}
+			if !own {
+				badV = "the return at " + p.InstrPos(r) + " can fail after the state file was already rewritten at " + p.InstrPos(wc) + ": a rejected start has replaced the stored identity/options"
+			}
+		}
+	}
+	switch {
+	case nW == 0:
+		obV.Undecide("no write-back call")
+	case badV != "":
+		obV.Violate("%s", badV)
+	default:
+		obV.HoldNT("nothing can fail after the write-back but the write itself")
+	}
 	// the override is stored into the object that is handed on, and every success of serverStateFromArgs goes through fn
 	ob = c.Obl("R3", "transports/obfs4:serverStateFromArgs#override-persisted", "an iat-mode argument is stored into the JSON state object before it is handed to the builder that writes it back, and serverStateFromArgs succeeds only through that builder")
 	c.Touch(p.FuncKey(sa))
@@ -495,6 +531,28 @@ func c18WriteBack(c *Ctx, p *Prog) {
 		}
 		if !okStore {
 			bad = "the parsed iat-mode is not stored into js.IATMode before the state is built"
+		}
+		// ... and nothing that is handed the same object (the state-file loader, the generator) runs
+		// between the store and the builder: it would overwrite the override with the stored value
+		for _, s := range p.Stores("transports/obfs4.jsonServerState", "IATMode") {
+			if s.Fn != sa {
+				continue
+			}
+			fa, ok := s.Instr.(*ssa.Store).Addr.(*ssa.FieldAddr)
+			if !ok {
+				continue
+			}
+			allInstrs(sa, func(in ssa.Instruction) {
+				ci, ok := in.(ssa.CallInstruction)
+				if !ok || in == build.(ssa.Instruction) {
+					return
+				}
+				for _, a := range ci.Common().Args {
+					if unspill(a) == unspill(fa.X) && canReachWithout(s.Instr, in, nil) && canReachWithout(in, build, nil) {
+						bad = "after the iat-mode override is stored, " + p.CalleeID(ci.Common()) + " (" + p.InstrPos(in) + ") is handed the same state object before it is built: the override is overwritten by the loaded or generated value"
+					}
+				}
+			})
 		}
 		for _, r := range sff.SuccessReturns() {
 			if !instrDominates(build, r) {
